@@ -102,11 +102,13 @@ __CPROVER_ensures((kf != NULL && key != NULL && key[0] != 0) ==>
 #endif
 
 #ifdef PART_DEF
+extern CT gv_out;   /* what the plain getter left in *result (any value) */
 econf_err GETVAL(econf_file *kf, const char *group, const char *key, CT *result)
 __CPROVER_requires(gv.gv_calls == 0)
 __CPROVER_assigns(result != NULL: *result)
-__CPROVER_assigns(gv.gv_calls, gv.kf, gv.group, gv.key, gv.result)
+__CPROVER_assigns(gv.gv_calls, gv.kf, gv.group, gv.key, gv.result, gv_out)
 __CPROVER_ensures(gv.gv_calls == 1 && gv.kf == kf && gv.group == group && gv.key == key && gv.result == (void *)result)
 __CPROVER_ensures(__CPROVER_return_value == gv.gv_ret)
+__CPROVER_ensures(result != NULL ==> *result == gv_out)
 ;
 #endif
